@@ -70,8 +70,8 @@ impl tokio::io::AsyncWrite for Obj {
     fn poll_write(mut self: Pin<&mut Self>, _cx: &mut Context<'_>, buf: &[u8]) -> Poll<io::Result<usize>> {
         match self.step() { Plan::Pending => Poll::Pending, Plan::Err => Poll::Ready(Err(Obj::err())), Plan::Max(n) => { let k = n.min(buf.len()); self.sink.extend_from_slice(&buf[..k]); Poll::Ready(Ok(k)) } }
     }
-    fn poll_flush(self: Pin<&mut Self>, _cx: &mut Context<'_>) -> Poll<io::Result<()>> { Poll::Ready(Ok(())) }
-    fn poll_shutdown(self: Pin<&mut Self>, _cx: &mut Context<'_>) -> Poll<io::Result<()>> { Poll::Ready(Ok(())) }
+    fn poll_flush(mut self: Pin<&mut Self>, _cx: &mut Context<'_>) -> Poll<io::Result<()>> { match self.step() { Plan::Err => Poll::Ready(Err(Obj::err())), Plan::Pending => Poll::Pending, _ => Poll::Ready(Ok(())) } }
+    fn poll_shutdown(mut self: Pin<&mut Self>, _cx: &mut Context<'_>) -> Poll<io::Result<()>> { match self.step() { Plan::Err => Poll::Ready(Err(Obj::err())), Plan::Pending => Poll::Pending, _ => Poll::Ready(Ok(())) } }
 }
 /// scripted stream / iterator of `n` items
 #[derive(Clone)]
@@ -89,7 +89,7 @@ impl futures_core::Stream for Items {
 
 #[derive(Clone, Debug)]
 enum Call { ReadToEnd(usize), Read(usize), ReadVec(usize, usize), ReadExact(usize), ReadToString, FillBuf, Consume(usize), Seek(u8, i64), StreamPos, Write(usize), WriteVec(usize, usize), Flush,
-            ARead(usize), AFill, AConsume(usize), ASeek(u8, i64), AWrite(usize) }
+            ARead(usize), AFill, AConsume(usize), ASeek(u8, i64), AWrite(usize), AFlush, AShutdown }
 
 fn seek_from(kind: u8, d: i64) -> SeekFrom { match kind { 0 => SeekFrom::Start(d.unsigned_abs()), 1 => SeekFrom::End(d), _ => SeekFrom::Current(d) } }
 fn res<T: std::fmt::Debug>(r: &io::Result<T>) -> String { match r { Ok(v) => format!("ok:{v:?}"), Err(e) => format!("err:{:?}", e.kind()) } }
@@ -116,6 +116,8 @@ fn apply<T: Read + BufRead + Seek + Write + tokio::io::AsyncRead + tokio::io::As
         Call::AConsume(n) => { let k = (*n).min(*last_fill); tokio::io::AsyncBufRead::consume(Pin::new(&mut *o), k); *last_fill -= k; ("()".into(), Expect::Add(k as u64)) }
         Call::ASeek(k, d) => { let s = Pin::new(&mut *o).start_seek(seek_from(*k, *d)); if s.is_err() { return (res(&s), Expect::Same); } let mut tries = 0; loop { let r = Pin::new(&mut *o).poll_complete(&mut cx); tries += 1; if let Poll::Ready(r) = r { return (format!("{} after {tries}", res(&r)), r.map_or(Expect::Same, Expect::Set)); } if tries >= 8 { return ("pending".into(), Expect::Unknown); } } }
         Call::AWrite(n) => { let b = vec![9u8; *n]; let r = Pin::new(&mut *o).poll_write(&mut cx, &b); (pres(&r), match r { Poll::Ready(Ok(k)) => Expect::Add(k as u64), _ => Expect::Same }) }
+        Call::AFlush => { let r = Pin::new(&mut *o).poll_flush(&mut cx); (pres(&r), Expect::Same) }
+        Call::AShutdown => { let r = Pin::new(&mut *o).poll_shutdown(&mut cx); (pres(&r), Expect::Same) }
     }
 }
 #[derive(Debug, Clone, Copy)]
@@ -130,7 +132,7 @@ fn token(c: &Call, r: &str, exp: Expect, last_fill: usize) -> String {
         Call::Read(_) | Call::ReadVec(..) | Call::ReadToString | Call::Write(_) | Call::WriteVec(..) | Call::AWrite(_) => format!("t {}", outcome(r)),
         Call::ReadExact(n) => format!("rx {n} {}", status(r)),
         Call::ARead(_) => format!("pr {} {}", if let Expect::Add(k) = exp { k } else { 0 }, status(r)),
-        Call::FillBuf | Call::StreamPos | Call::Flush => "nc".into(),
+        Call::FillBuf | Call::StreamPos | Call::Flush | Call::AFlush | Call::AShutdown => "nc".into(),
         Call::Consume(_) => format!("co {}", if let Expect::Add(k) = exp { k } else { 0 }),
         Call::AConsume(_) => format!("ac {}", if let Expect::Add(k) = exp { k } else { 0 }),
         Call::Seek(..) => format!("sk {}", outcome(r)),
@@ -144,7 +146,8 @@ fn gen_plan(rng: &mut Rng) -> Vec<Plan> { (0..rng.range(1, 6)).map(|_| match rng
 fn io_case(rng: &mut Rng) -> (String, String) {
     let data: Vec<u8> = (0..rng.below(40)).map(|_| b'a' + rng.below(26) as u8).collect();
     let obj = Obj { data, pos: 0, plan: gen_plan(rng), call: 0, cap: rng.range(1, 8) as usize, sink: vec![], seek_to: None };
-    let calls: Vec<Call> = (0..rng.range(1, 14)).map(|_| match rng.below(17) {
+    let calls: Vec<Call> = (0..rng.range(1, 14)).map(|_| match rng.below(19) {
+        17 => Call::AFlush, 18 => Call::AShutdown,
         16 => Call::ReadToEnd(*rng.pick(&[0usize, 0, 1, 4, 16])),
         0 => Call::Read(rng.below(10) as usize), 1 => Call::ReadVec(rng.below(5) as usize, rng.below(5) as usize), 2 => Call::ReadExact(rng.below(6) as usize), 3 => Call::ReadToString,
         4 => Call::FillBuf, 5 => Call::Consume(rng.below(9) as usize), 6 => Call::Seek(rng.below(3) as u8, rng.below(50) as i64 - 10), 7 => Call::StreamPos,
@@ -153,7 +156,8 @@ fn io_case(rng: &mut Rng) -> (String, String) {
     let case = format!("IO plan={:?} cap={} len={} calls={:?}", obj.plan, obj.cap, obj.data.len(), calls);
     let pb = ProgressBar::with_draw_target(Some(1000), ProgressDrawTarget::hidden());
     let mut bare = obj.clone();
-    let mut wrapped = pb.wrap_read(obj);  // the same wrapper type serves read, write, seek and the async traits
+    // the same wrapper type serves read, write, seek and the async traits: every constructor must hand out the same thing
+    let mut wrapped = match rng.below(4) { 0 => pb.wrap_read(obj), 1 => pb.wrap_write(obj), 2 => pb.wrap_async_read(obj), _ => pb.wrap_async_write(obj) };
     let (mut lf1, mut lf2) = (0usize, 0usize);
     let mut verdict = String::from("ok");
     let mut toks: Vec<String> = Vec::new(); let mut positions: Vec<String> = Vec::new();
@@ -220,6 +224,46 @@ fn iter_case(rng: &mut Rng) -> (String, String) {
     (case, verdict)
 }
 
+/// the `ProgressIterator` constructors (`progress`, `progress_count`, `progress_with_style`, `try_progress`) and the builder methods
+/// of `ProgressBarIter` (`with_*`): the wrapper they give has the length / position / texts / finish behaviour asked for, hands out
+/// the same items and the same `len()` / `size_hint()` as the bare iterator, and counts them
+fn iter_ctor_case(rng: &mut Rng) -> (String, String) {
+    let n = rng.below(9) as usize;
+    let ctor = rng.below(4);
+    let p0: u64 = *rng.pick(&[0u64, 0, 3, 100]);
+    let abandon = rng.chance(1, 2);
+    let take = rng.below(n as u64 + 2) as usize;
+    let case = format!("ITERCTOR ctor={ctor} n={n} with_position={p0} abandon={abandon} take={take}");
+    let base = || Counted { n, next: 0, pulled: std::sync::Arc::new(std::sync::atomic::AtomicUsize::new(0)) };
+    let (mut w, want_len): (indicatif::ProgressBarIter<Counted>, Option<u64>) = match ctor {
+        0 => (base().progress(), Some(n as u64)),
+        1 => (base().progress_count(n as u64 + 7), Some(n as u64 + 7)),
+        2 => (base().progress_with_style(indicatif::ProgressStyle::with_template("{pos}/{len} {msg}").unwrap()), Some(n as u64)),
+        _ => match base().try_progress() { Some(w) => (w, Some(n as u64)), None => return (case, "FAIL try_progress gave None for an iterator with an upper size bound".into()) },
+    };
+    w = w.with_position(p0).with_message("m\tm").with_prefix("p").with_elapsed(std::time::Duration::from_secs(5));
+    w = w.with_finish(if abandon { ProgressFinish::Abandon } else { ProgressFinish::AndLeave });
+    if rng.chance(1, 2) { w = w.with_style(indicatif::ProgressStyle::with_template("{prefix} {pos}").unwrap()); }
+    let pb = w.progress.clone();
+    let mut verdict = String::from("ok");
+    let mut fail = |v: &mut String, m: String| { if v == "ok" { *v = m; } };
+    if pb.length() != want_len { fail(&mut verdict, format!("FAIL constructor length {:?}, expected {want_len:?}", pb.length())); }
+    if pb.position() != p0 { fail(&mut verdict, format!("FAIL with_position {} instead of {p0}", pb.position())); }
+    if pb.message() != "m        m" || pb.prefix() != "p" { fail(&mut verdict, format!("FAIL with_message/with_prefix: {:?} {:?}", pb.message(), pb.prefix())); }
+    if pb.elapsed() < std::time::Duration::from_secs(5) { fail(&mut verdict, format!("FAIL with_elapsed: elapsed {:?}", pb.elapsed())); }
+    if ExactSizeIterator::len(&w) != n || Iterator::size_hint(&w) != (n, Some(n)) { fail(&mut verdict, format!("FAIL not-transparent len/size_hint {} {:?} for {n} items", ExactSizeIterator::len(&w), Iterator::size_hint(&w))); }
+    let mut got = Vec::new();
+    for _ in 0..take { match w.next() { Some(x) => got.push(x), None => break } }
+    let want: Vec<usize> = (0..n.min(take)).collect();
+    if got != want { fail(&mut verdict, format!("FAIL not-transparent items {got:?} expected {want:?}")); }
+    let ended = take > n;
+    let want_pos = if ended && !abandon { want_len.unwrap() } else { p0 + want.len() as u64 };
+    if pb.position() != want_pos { fail(&mut verdict, format!("FAIL miscount position {} expected {want_pos} (ended={ended})", pb.position())); }
+    if pb.is_finished() != ended { fail(&mut verdict, format!("FAIL finish finished={} ended={ended}", pb.is_finished())); }
+    if ExactSizeIterator::len(&w) != n - want.len() { fail(&mut verdict, format!("FAIL not-transparent len after {} items: {}", want.len(), ExactSizeIterator::len(&w))); }
+    (case, verdict)
+}
+
 /// counts what is pulled out of the underlying iterator, however the caller consumes the wrapper
 #[derive(Clone)]
 struct Counted { n: usize, next: usize, pulled: std::sync::Arc<std::sync::atomic::AtomicUsize> }
@@ -274,11 +318,12 @@ fn rayon_case(rng: &mut Rng) -> (String, String) {
     use rayon::prelude::*;
     let n = *rng.pick(&[0usize, 1, 2, 3, 7, 64, 100, 1000, 4097]);
     let min_len = *rng.pick(&[1usize, 2, 16, 5000]);
-    let mode = rng.below(7);
+    let mode = rng.below(13);
     let target = if n == 0 { 0 } else { rng.below(n as u64) as usize };
     let case = format!("RAYON n={n} min_len={min_len} mode={mode} target={target}");
     let pb = ProgressBar::with_draw_target(Some(n as u64), ProgressDrawTarget::hidden());
     let v: Vec<usize> = (0..n).collect();
+    #[allow(unused_assignments)]
     let mut verdict = String::from("ok");
     let max_seen = std::sync::atomic::AtomicU64::new(0);
     let see = |_: &usize| { let p = pb.position(); max_seen.fetch_max(p, std::sync::atomic::Ordering::Relaxed); };
@@ -287,6 +332,16 @@ fn rayon_case(rng: &mut Rng) -> (String, String) {
         1 => v.par_iter().with_min_len(min_len).progress_with(pb.clone()).enumerate().map(|(_, x)| { see(x); 1usize }).sum(),
         2 => v.par_iter().with_min_len(min_len).progress_with(pb.clone()).zip(v.par_iter()).map(|(x, _)| { see(x); 1usize }).sum(),
         3 => v.par_iter().filter(|x| **x % 3 != 1).progress_with(pb.clone()).inspect(|x| see(x)).count(),
+        // an unindexed source (the consumer is split with split_off_left / to_reducer), reversed and chunked indexed ones (the producer is
+        // driven from the back), collect_into_vec (the wrapper's own `drive`), and the trait constructors
+        7 => (0..n).into_iter().par_bridge().progress_with(pb.clone()).inspect(|x| see(x)).count(),
+        8 => v.par_iter().with_min_len(min_len).progress_with(pb.clone()).rev().inspect(|x| see(x)).count(),
+        9 => { let mut o: Vec<usize> = Vec::new(); v.par_iter().with_min_len(min_len).progress_with(pb.clone()).map(|x| { see(x); *x }).collect_into_vec(&mut o); if o != v { verdict = format!("FAIL not-transparent collect_into_vec {} items of {n}", o.len()); } o.len() }
+        10 => v.par_iter().flat_map_iter(|x| std::iter::once(*x)).progress_with(pb.clone()).inspect(|x| see(x)).count(),
+        11 => { let o: Vec<usize> = v.par_iter().with_min_len(min_len).progress_with(pb.clone()).skip(target).step_by(2).map(|x| *x).collect(); let w: Vec<usize> = v.iter().skip(target).step_by(2).cloned().collect(); if o != w { verdict = format!("FAIL not-transparent skip/step_by {} items", o.len()); } n }
+        12 => { let a: Vec<usize> = v.par_iter().progress_count(n as u64).map(|x| *x).collect(); let b: Vec<usize> = v.par_iter().progress().map(|x| *x).collect();
+                let c: Vec<usize> = v.par_iter().progress_with_style(indicatif::ProgressStyle::with_template("{pos}").unwrap()).map(|x| *x).collect();
+                if a != v || b != v || c != v { verdict = "FAIL not-transparent progress_count / progress / progress_with_style".into(); } pb.set_position(n as u64); n }
         // short-circuiting consumers stop in the middle of a split: the position is the number of items handed on
         4 => { let seen = std::sync::atomic::AtomicUsize::new(0); let _ = v.par_iter().with_min_len(min_len).progress_with(pb.clone()).map(|x| { seen.fetch_add(1, std::sync::atomic::Ordering::SeqCst); see(x); x }).find_first(|x| **x == target); seen.into_inner() }
         5 => { let seen = std::sync::atomic::AtomicUsize::new(0); let _ = v.par_iter().with_min_len(min_len).progress_with(pb.clone()).map(|x| { seen.fetch_add(1, std::sync::atomic::Ordering::SeqCst); see(x); x }).any(|x| *x == target); seen.into_inner() }
@@ -397,6 +452,7 @@ pub fn run(seed: u64, tier: &str, out: &mut Out) {
     for _ in 0..n { let (c, v) = io_case(&mut rng); out.emit(&c, &v); }
     for _ in 0..n / 4 { let (c, v) = iter_case(&mut rng); out.emit(&format!("NOMODEL {c}"), &format!(" ORACLE {v}")); }
     for _ in 0..n / 4 { let (c, v) = iter_modes_case(&mut rng); out.emit(&format!("NOMODEL {c}"), &format!(" ORACLE {v}")); }
+    for _ in 0..n / 8 { let (c, v) = iter_ctor_case(&mut rng); out.emit(&format!("NOMODEL {c}"), &format!(" ORACLE {v}")); }
     for _ in 0..n / 40 { let (c, v) = rayon_case(&mut rng); out.emit(&format!("NOMODEL {c}"), &format!(" ORACLE {v}")); }
 }
 
